@@ -56,3 +56,31 @@ Fixpoint subst (rm : rmap) (t : term) {struct t} : list term :=
 Definition subst_key (s : subs) (bounded trait_ : term) : list (term * term) :=
   let rm := reverse_map s in
   flat_map (fun b => map (fun t => (b, t)) (subst rm trait_)) (subst rm bounded).
+
+(* Is the key re-expressible: does no parameter of the specific header that carries a
+   non-identity binding of [s] stay in place?  (Outside this class the result still
+   mentions parameters of the specific header: finding F1.) *)
+Definition is_some {A} (o : option A) : bool := match o with Some _ => true | None => false end.
+
+Fixpoint stable (s : subs) (rm : rmap) (t : term) {struct t} : bool :=
+  match t with
+  | Node l ks =>
+      if (is_type_kind l && is_some (rm_lookup rm (VType (Node l ks))))
+         || (is_expr_kind l && is_some (rm_lookup rm (VExpr (Node l ks)))) then true
+      else
+        let here :=
+          match ty_param (Node l ks) with
+          | Some q => Some q
+          | None => ex_param (Node l ks)
+          end in
+        match here with
+        | Some q => match lookup s q with
+                    | Some (VType _) | Some (VExpr _) => false
+                    | _ => forallb (stable s rm) ks
+                    end
+        | None => forallb (stable s rm) ks
+        end
+  end.
+
+Definition stable_key (s : subs) (bounded trait_ : term) : bool :=
+  stable s (reverse_map s) bounded && stable s (reverse_map s) trait_.
